@@ -328,7 +328,8 @@ def _member(rng, fam=None):
         return {"cls": "Shekel4", "args": [rng.randint(1, 3)]}
     if fam == "StronginC3":
         return {"cls": "StronginC3", "args": []}
-    return {"cls": fam, "args": [rng.randint(1, 5)]}
+    # (the dimension-generic families also in dimensions where a vectorised branch would pay off)
+    return {"cls": fam, "args": [rng.choice([rng.randint(1, 5), rng.randint(1, 5), rng.randint(1, 5), rng.randint(6, 12)])]}
 
 
 def _clean_room(members, queries):
@@ -512,12 +513,12 @@ class C15(SmallSuite):
             pts[mk] = []
             for p in lst:
                 if p.get("abs"):
-                    pts[mk].append([float(p["t"][i]) for i in range(st["N"])])      # absolute coordinates (shared by two families)
+                    pts[mk].append([float(p["t"][i % len(p["t"])]) for i in range(st["N"])])      # absolute coordinates (shared by two families)
                 elif p["kind"] == "special" and st["special"]:
                     pts[mk].append(list(st["special"][p["i"] % len(st["special"])]))
                 else:
                     t = p.get("t", [0.5] * 5)
-                    pts[mk].append([l + (h - l) * t[i] for i, (l, h) in enumerate(zip(st["lower"], st["upper"]))])
+                    pts[mk].append([l + (h - l) * t[i % len(t)] for i, (l, h) in enumerate(zip(st["lower"], st["upper"]))])
         queries = sorted({(plan_slot_member(plan, o["slot"]), tuple(pts[plan_slot_member(plan, o["slot"])][o["pt"]]), o.get("fid"))
                           for o in plan["ops"] if o["op"] == "evaluate"}, key=repr)
         clean, _ = fork_call(_clean_room, members, [(a, list(b), c) for (a, b, c) in queries])
